@@ -438,6 +438,9 @@ def mv_data(d, ncol):
         elif d == 'NAN':
             df = mv_data('A', ncol).copy()
             df.iloc[3, 1] = np.nan
+        elif d == 'NAN32':                  # a missing value in a single-precision table is a missing value
+            df = mv_data('A', ncol).copy().astype('float32')
+            df.iloc[5, ncol - 1] = np.nan
         elif d == 'EMPTY':
             df = mv_data('A', ncol).iloc[0:0].copy()
         elif d == 'TEXT':
@@ -468,7 +471,7 @@ class GaussBinding(Binding):
     kind = 'gauss'
     rejects = True
     valid = ('A', 'B', 'K1', 'K2')
-    invalid = ('NAN', 'EMPTY', 'TEXT', 'NUMTEXT', 'BOOL', 'DATE')
+    invalid = ('NAN', 'NAN32', 'EMPTY', 'TEXT', 'NUMTEXT', 'BOOL', 'DATE')
     cfgs = ('c1', 'c2')
 
     def __init__(self, ncol, conditional=False):
@@ -529,7 +532,7 @@ class VineBinding(Binding):
     rejects = True
     unfitted_dict_ok = True
     valid = ('A', 'B')
-    invalid = ('NAN', 'EMPTY', 'TEXT', 'NUMTEXT', 'BOOL', 'DATE')
+    invalid = ('NAN', 'NAN32', 'EMPTY', 'TEXT', 'NUMTEXT', 'BOOL', 'DATE')
     methods = ('pdf',)
     json_ok = False
 
